@@ -69,9 +69,9 @@ Theorem C18_facts_ok_partial :
   codec_shared_stores = [] /\ param_store_violations = [] /\ codec_shared_calls_bad = [] /\
   getparameter_writes = [] /\
   (forall v, In v validate_unguarded_writes ->
-     fst (fst v) = "jpeg2000/htj2k"%string /\ snd (fst v) = "Parameters"%string) /\
+     fst (fst v) = "jpeg2000/htj2k"%string /\ snd (fst v) = "Parameters_go"%string) /\
   (forall v, In v codec_iface_calls_bad ->
-     v = ("jpegls/nearlossless", "Decode", "Parameters.SetParameter")%string).
+     v = ("jpegls/nearlossless", "Decode", "iface.SetParameter")%string).
 Proof. exact facts_ok_partial. Qed.
 Print Assumptions C18_facts_ok_partial.
 
